@@ -40,7 +40,7 @@ def gen_cfg(rng, tier: str, big: bool = False) -> dict:
         "alloc_seed": rng.getrandbits(32),
         # where the data area starts, in clusters after the BAT (0 = right after metadata, rounded up to a cluster)
         "data_lead": rng.choice([0, 0, 0, 1, 2]),
-        "in_use": rng.random() < 0.2,
+        "in_use": rng.random() < 0.2, "fbo_zero": rng.random() < 0.3, "v1_tight": ver == 1 and rng.random() < 0.3,
         # version 1 stores a 32-bit size; the four bytes after it are not part of the header ("Unused" in the SDK layout,
         # masked off by QEMU) and hold whatever the producer left there
         "v1_unused": rng.choice([0, 0, 0, 1, 0xDEADBEEF]) if ver == 1 else 0,
@@ -64,6 +64,9 @@ def render(cfg: dict, layer: Layer, view: View, parent: dict | None = None, name
     first_cluster = (meta_sectors + cl - 1) // cl + cfg["data_lead"]  # data area start, in clusters
     ver = cfg["ver"]
     skew = cfg.get("v1_skew", 0) % cl if ver == 1 else 0
+    if ver == 1 and cfg.get("v1_tight"):
+        # the classic layout: clusters start on the first sector behind the table, wherever that is
+        skew = meta_sectors - first_cluster * cl
     data_start = first_cluster * cl + skew  # sectors
     if ver == 1:
         assert layer.n < (1 << 32)
@@ -71,7 +74,8 @@ def render(cfg: dict, layer: Layer, view: View, parent: dict | None = None, name
     else:
         size_field = struct.pack("<Q", layer.n)
     hdr = struct.pack("<16sIIIII", SIG_V1 if ver == 1 else SIG_V2, 2, 16, max(1, layer.n // (16 * 32)), cl, ncl)
-    hdr += size_field + struct.pack("<IIIQ", IN_USE if cfg["in_use"] else 0, data_start, 0, 0)
+    fbo = 0 if cfg.get("fbo_zero") else data_start  # old-style images leave m_FirstBlockOffset at 0: the table alone says where clusters are
+    hdr += size_field + struct.pack("<IIIQ", IN_USE if cfg["in_use"] else 0, fbo, 0, 0)
     assert len(hdr) == 64
     f.write(0, hdr)
     for n, off, w, k in [("m_Sig", 0, 16, "magic"), ("m_Type", 16, 4, "int"), ("m_Heads", 20, 4, "int"),
@@ -102,7 +106,7 @@ def render(cfg: dict, layer: Layer, view: View, parent: dict | None = None, name
     f.set_length(max(f.length, ((first_cluster + nslots) * cl + skew) * 512, 64 + 4 * ncl))
     img.files[name] = f
     img.main = name
-    img.meta = {"size": layer.n * 512, "cluster_size": cl * 512, "data_offset": data_start, "in_use": cfg["in_use"]}
+    img.meta = {"size": layer.n * 512, "cluster_size": cl * 512, "data_offset": fbo, "in_use": cfg["in_use"]}
     img.meta_bytes = 64 + 4 * ncl
     img.info = {"bat": bat, "unit_bytes": cl * 512, "first_cluster": first_cluster}
     return img
